@@ -34,6 +34,7 @@ from vf import adf_c06 as adfw
 
 ID = "C06"
 LEVEL = "exploration"
+ENGINES = ["adf_c06"]
 RULE = ("random sequential histories (5-60 operations) over the 14 key families / 13 update_* + 14 add_* functions of "
         "cherab.openadas.repository and the 11 install_adf* front-ends, drawn from small per-history pools of species "
         "(H-Ar, isotopes D, T, He3, ... and the hydrogen/protium symbol twins), charges 0..Z, integer / string / "
@@ -65,9 +66,10 @@ ASSUMPTIONS = [
 ]
 QUICK = dict(cases=120, workers=2, timecap=40)
 THOROUGH = dict(cases=15000, workers=16, timecap=600)
-REQUIRED = {"readback": 1500, "others_untouched": 10000, "never_written": 10000, "alias_read": 3000,
-            "audit_write_open": 1500, "audit_mkdir": 1500, "home_clean": 100, "rejected_update": 100,
-            "rejected_intact": 1000, "install_call": 60, "install_readback": 100}
+# minima sized at ~1/4 of an undisturbed quick run, so that a heavily loaded machine (time cap reached early) still decides
+REQUIRED = {"readback": 1000, "others_untouched": 8000, "never_written": 8000, "alias_read": 2000,
+            "audit_write_open": 1000, "audit_mkdir": 1000, "home_clean": 40, "rejected_update": 60,
+            "rejected_intact": 600, "install_call": 40, "install_readback": 60}
 
 # ----------------------------------------------------------------------------------------------------------------
 # independent species table: variable name in cherab.core.atomic.elements -> (symbol, Z)
@@ -146,6 +148,7 @@ INSTALL_ROUTES = {
 }
 
 _S = {}
+_THIRD_PARTY_HOME = {".cache", ".config", ".local", ".matplotlib", ".fontconfig"}   # font / plotting caches of dependencies
 _AUD = {"active": False, "events": []}
 _WRITE_FLAGS = os.O_WRONLY | os.O_RDWR | os.O_CREAT | os.O_TRUNC | os.O_APPEND
 
@@ -1310,6 +1313,10 @@ def run_case(case, ctx):
         # final file-system sensors
         ctx.mon("home_clean")
         new_all = sorted(_snapshot(home) - home_before)
+        third_party = [p for p in new_all if p.split(os.sep)[0] in _THIRD_PARTY_HOME]
+        if third_party:
+            ctx.skip("third-party cache/config entries appeared in $HOME during a history (not repository files)")
+            new_all = [p for p in new_all if p not in third_party]
         reported = set(H.outside_paths)
         new_home = [p for p in new_all if os.path.realpath(os.path.join(home, p)) not in reported]
         top = sorted({p.split(os.sep)[0] for p in new_all})
